@@ -11,6 +11,7 @@
    between requests and requests, each request with its own answers and its own faults.
    [proxy_step] is a total function: every request terminates with a response. *)
 From Reservoir Require Import Base.Prelude Base.Strings Model.Freshness Model.Proxy Proofs.Proxy.
+From Reservoir Require Model.Coalesce Proofs.CoalesceNoError.
 
 (* For ALL histories and ALL fault oracles: if the origin answered every upstream request of a
    client request, each time with 2xx or 304 ([origin_good]), then the client receives one of
@@ -49,6 +50,16 @@ Theorem C09_step_shape : forall cfg now st rq answers flt st' resp ups,
      end.
 Proof. exact proxy_step_shape. Qed.
 Print Assumptions C09_step_shape.
+
+(* Concurrent requests for one key (Model/Coalesce.v: every interleaving of arrivals, the shared
+   fetch, hand-overs, client disconnects and evictions, any number of clients, every origin answer
+   kind including a body the origin cuts short and a 304 for an entry evicted meanwhile): no client
+   ever receives the proxy's own error.  Another client hanging up, or the entry disappearing
+   between the shared fetch and a follower's own lookup, costs nobody their answer. *)
+Theorem C09_coalesced_never_error : forall ks tr s,
+  Coalesce.run (Coalesce.init ks) tr = Some s -> forall c, Coalesce.ph s c <> Coalesce.Done Coalesce.RError.
+Proof. exact CoalesceNoError.coalesced_never_error. Qed.
+Print Assumptions C09_coalesced_never_error.
 
 (* ---- the hypotheses are satisfiable: faults that used to end in 502 -------------------------------- *)
 
